@@ -595,9 +595,15 @@ def install():
 
     _wrap_method(MD.Models, "__init__", None, md_init_after)
 
+    def qupd_before(run, self, a, kw):
+        run.qupd = getattr(run, "qupd", 0) + 1
+
+    _wrap_method(MD.Quadratic, "update", qupd_before, None)
+
     def upd_before(run, self, a, kw):
         fw = run.fw
         best = int(fw.best_index) + 1 if fw is not None and hasattr(fw, "_best_index") else 0
+        run.qupd = 0
         return best
 
     def upd_after(run, self, a, kw, best, res, exc):
@@ -605,7 +611,8 @@ def install():
         site = run.next_site
         if "tr" in run.want:
             # the value recorded in the slot vs the value returned by the evaluation
-            run.emit("Upd", k=k + 1, best=best, site=site,
+            run.emit("Upd", k=k + 1, best=best, site=site, nupd=int(getattr(run, "qupd", 0)),
+                     nmodels=int(1 + self.m_nonlinear_ub + self.m_nonlinear_eq),
                      exc=(type(exc).__name__ if exc is not None else "none"),
                      fval=K(float(a[2])), frec=K(float(self.fun_val[k])), x=KL(a[1]))
         if exc is None and "interp" in run.want:
